@@ -58,11 +58,11 @@ Outcome(c) ==
         converted |-> Converts(c) /\ RhsUnitOf(c) # PU(c.lu)]
 
 \* unary / scalar-argument operators
-UnOps == {"neg", "pow2", "pow2nd", "pow2q", "pow3a", "powdim", "raddnd", "rsubnd", "rltnd", "pow3", "pow0", "powm1", "powm2", "sqrt", "rmul2", "rmulf", "rdiv2", "rdivf", "rdivnd", "rmulnd", "invert"}
+UnOps == {"neg", "pow2", "pow2nd", "pow2q", "pow2s", "pow3a", "powdim", "raddnd", "rsubnd", "rltnd", "pow3", "pow0", "powm1", "powm2", "sqrt", "rmul2", "rmulf", "rdiv2", "rdivf", "rdivnd", "rmulnd", "invert"}
 UnOutcome(op, i) ==
   LET u == PU(i) IN
   CASE op = "neg" -> [raises |-> FALSE, unit |-> Sparse(u), bool |-> FALSE]
-    [] op \in {"pow2", "pow2nd", "pow2q"} -> [raises |-> FALSE, unit |-> Sparse(UPow(u, 2)), bool |-> FALSE]       \* pow2nd: the exponent is a 0-d ndarray, pow2q: a dimensionless pint Quantity
+    [] op \in {"pow2", "pow2nd", "pow2q", "pow2s"} -> [raises |-> FALSE, unit |-> Sparse(UPow(u, 2)), bool |-> FALSE]       \* pow2nd: the exponent is a 0-d ndarray, pow2q: a dimensionless pint Quantity, pow2s: the Array 0.02 m/cm (a scaled dimensionless unit: the number 2)
     [] op = "powdim" -> [raises |-> TRUE, why |-> "exponent carries a dimension"]                               \* exponent = Array in s
     [] op \in {"pow3", "pow3a"} -> [raises |-> FALSE, unit |-> Sparse(UPow(u, 3)), bool |-> FALSE]
     [] op = "pow0" -> [raises |-> FALSE, unit |-> Sparse(Unit0), bool |-> FALSE]
@@ -91,7 +91,7 @@ Keep2 == {"add", "subtract", "maximum", "minimum", "hypot", "fmax", "fmin"}     
 KeepSeq == {"concatenate", "stack", "hstack", "vstack"}                                            \* a sequence of Arrays
 Pred1 == {"isfinite", "isnan", "isinf", "logical_not", "signbit"}
 Pred2 == {"less", "less_equal", "greater", "greater_equal", "equal", "not_equal"}
-Trans1 == {"sqrt", "square", "cbrt", "reciprocal", "power_int2", "power_nd2", "power_nd3", "power_q2", "power_a3"}        \* np.power with a Python int / 0-d ndarray exponent
+Trans1 == {"sqrt", "square", "cbrt", "reciprocal", "power_int2", "power_nd2", "power_nd3", "power_q2", "power_a3", "power_s2"}        \* np.power with a Python int / 0-d ndarray exponent
 Trans2 == {"multiply", "divide", "true_divide"}
 NpOutcome(c) ==
   LET u == PU(c.lu)  v == IF c.rk = "arr" THEN PU(c.ru) ELSE Unit0 IN
@@ -99,7 +99,7 @@ NpOutcome(c) ==
     [] c.f \in Pred1 -> [raises |-> FALSE, unit |-> Sparse(Unit0), bool |-> TRUE]
     [] c.f = "sqrt" -> IF URootOk(u, 2) THEN [raises |-> FALSE, unit |-> Sparse(URoot(u, 2)), bool |-> FALSE] ELSE [raises |-> FALSE, unit |-> <<"fractional">>, bool |-> FALSE]
     [] c.f = "cbrt" -> IF URootOk(u, 3) THEN [raises |-> FALSE, unit |-> Sparse(URoot(u, 3)), bool |-> FALSE] ELSE [raises |-> FALSE, unit |-> <<"fractional">>, bool |-> FALSE]
-    [] c.f \in {"square", "power_int2", "power_nd2", "power_q2"} -> [raises |-> FALSE, unit |-> Sparse(UPow(u, 2)), bool |-> FALSE]
+    [] c.f \in {"square", "power_int2", "power_nd2", "power_q2", "power_s2"} -> [raises |-> FALSE, unit |-> Sparse(UPow(u, 2)), bool |-> FALSE]
     [] c.f \in {"power_nd3", "power_a3"} -> [raises |-> FALSE, unit |-> Sparse(UPow(u, 3)), bool |-> FALSE]
     [] c.f = "reciprocal" -> [raises |-> FALSE, unit |-> Sparse(UInv(u)), bool |-> FALSE]
     [] c.f \in Trans2 -> [raises |-> FALSE, bool |-> FALSE, conv |-> <<>>, converted |-> FALSE,
